@@ -39,14 +39,17 @@ def replay_queue(run, oi):
   """re-run the linearised operation history of the pending-event deque of object oi on a
   model deque; returns dict(ops=[...], displaced=[uids], final=[uids], pops=[(seq, thread, uid)],
   adds=[(seq, thread, op, uid, time_us, index_after, len_before)])"""
-  cap = run.objs[oi].locking_deque.deque.maxlen
+  return replay_ops(run.queue_ops(oi), run.objs[oi].locking_deque.deque.maxlen)
+
+
+def replay_ops(ops, cap):
   d = collections.deque(maxlen=cap)
   displaced, pops, adds = [], [], []
   # the queue as the API defines it: posts take effect when the event is stored, the
   # consumer takes the front; internal rotations are not part of it
   abstract = []
   not_front = []
-  for seq, tn, op, payload, t_us in run.queue_ops(oi):
+  for seq, tn, op, payload, t_us in ops:
     if op == 'popleft':
       if abstract and (abstract[0] is not payload and abstract[0] != payload):
         not_front.append((seq, tn, payload, list(abstract)))
